@@ -3,8 +3,9 @@
    Remoting/ProcessorGo.v.  `process` interprets go_dispatch, the table
    REGENERATED from the source by `xlate dispatch` (type code -> processor; for
    the two phase-two processors: which request is asserted, which expression
-   selects the manager, which method is called with which arguments, whether an
-   error returns before anything is sent, which fields the response echoes and
+   selects the manager, which method is called with which arguments, what a
+   manager error does (silence always / only without a status), which result
+   code goes with and without an error, which fields the response echoes and
    which id it is sent under); requests, outcomes and manager sets are arbitrary. *)
 From Coq Require Import String.
 From Coq Require Import List NArith ZArith Bool Permutation.
@@ -38,18 +39,41 @@ Theorem C15_echo : forall mgrs r st,
      Respond (resp_of (r_code r)) (VZ (r_id r)) (VN (r_xid r)) (VZ (r_branch r)) (VN st) 1%N].
 Proof. exact go_echo. Qed.
 
-(* manager failed (error or panic): nothing is reported, in particular no success *)
+(* manager failed — an error together with a status that is not itself a phase-two success
+   status (every shipped manager), or a panic: no response says success, neither by its
+   status nor by its result code *)
 Theorem C15_no_false_success : forall mgrs r o,
-  (o = OPanic \/ exists st, o = ORet st true) ->
-  forallb (fun e => negb (is_respond e)) (process go_dispatch mgrs r o) = true.
+  (o = OPanic \/ exists st, o = ORet st true /\ success_status (VN st) = false) ->
+  forall resp i x b s rc, In (Respond resp i x b s rc) (process go_dispatch mgrs r o) ->
+    success_status s = false /\ rc = 0%N.
 Proof. exact go_no_false_success. Qed.
 
-(* conversely every response on the wire is the truthful one *)
+(* whatever the manager did there is at most one response; a panicking manager gets none *)
+Theorem C15_at_most_one_response : forall mgrs r o,
+  (length (filter is_respond (process go_dispatch mgrs r o)) <= 1)%nat.
+Proof. exact go_at_most_one_response. Qed.
+
+Theorem C15_panic_no_response : forall mgrs r,
+  forallb (fun e => negb (is_respond e)) (process go_dispatch mgrs r OPanic) = true.
+Proof. exact go_panic_no_response. Qed.
+
+(* every response on the wire is the request's own and truthful: its kind, message id, xid,
+   branch id, precisely the status the manager returned, result code Success iff no error *)
 Theorem C15_respond_only_truthful : forall mgrs r o resp i x b s rc,
   In (Respond resp i x b s rc) (process go_dispatch mgrs r o) ->
-  exists st, o = ORet st false /\ s = VN st /\ i = VZ (r_id r) /\ x = VN (r_xid r) /\ b = VZ (r_branch r)
-             /\ resp = resp_of (r_code r) /\ rc = 1%N.
+  exists st failed, o = ORet st failed /\ s = VN st /\ i = VZ (r_id r) /\ x = VN (r_xid r) /\ b = VZ (r_branch r)
+             /\ resp = resp_of (r_code r) /\ rc = (if failed then 0 else 1)%N.
 Proof. exact go_respond_only_truthful. Qed.
+
+(* the status hypothesis of C15_no_false_success cannot be dropped where a failure status is
+   passed on to the coordinator (error mode 2, the code as it is): a manager returning an
+   error TOGETHER WITH PhasetwoCommitted gets PhasetwoCommitted reported (result code Failed).
+   Stated on the reference rows, not on go_dispatch (KNOWN_FINDINGS: error-with-success-status) *)
+Theorem C15_false_success_refuted_mode2 :
+  exists r st, success_status (VN st) = true /\
+    In (Respond "BranchCommitResponse" (VZ (r_id r)) (VN (r_xid r)) (VZ (r_branch r)) (VN st) 0%N)
+       (process [(3%N, PPhase2 (commit_row 2)); (5%N, PPhase2 (rollback_row 2))] [1%N] r (ORet st true)).
+Proof. exact false_success_refuted_mode2. Qed.
 
 (* requests do not influence each other: whatever the order of the stream and
    whatever interleaving of the per-request events the wire shows, the multiset
@@ -60,11 +84,13 @@ Theorem C15_independent : forall mgrs (s s' : stream) out out',
 Proof. exact go_independent. Qed.
 
 (* ---- non-vacuity: a mixed stream (AT commit answered, TCC rollback whose manager
-   fails with a success-looking status, XA commit whose manager panics, a request for
+   fails with the retryable status (reported, result code Failed), TCC commit failing
+   without a status (silence), XA commit whose manager panics, a request for
    an unregistered branch type, a heartbeat) and one of its interleavings *)
 Definition c15_demo : stream :=
   [(mkReq 3 17 1 100 0 7 0, ORet 5 false);
-   (mkReq 5 18 1 101 1 8 0, ORet 8 true);
+   (mkReq 5 18 1 101 1 8 0, ORet 9 true);
+   (mkReq 3 22 3 104 1 8 0, ORet 0 true);
    (mkReq 3 19 2 102 3 9 0, OPanic);
    (mkReq 5 20 2 103 9 9 0, ORet 8 false);
    (mkReq 120 21 0 0 0 0 0, ORet 0 false)].
@@ -73,7 +99,9 @@ Example C15_demo_nonvacuous :
   per_request go_dispatch [0; 1; 3]%N c15_demo =
     [[Consult 0 "BranchCommit" (VN 1) (VZ 100) (VN 7) (VN 0);
       Respond "BranchCommitResponse" (VZ 17) (VN 1) (VZ 100) (VN 5) 1%N];
-     [Consult 1 "BranchRollback" (VN 1) (VZ 101) (VN 8) (VN 0)];
+     [Consult 1 "BranchRollback" (VN 1) (VZ 101) (VN 8) (VN 0);
+      Respond "BranchRollbackResponse" (VZ 18) (VN 1) (VZ 101) (VN 9) 0%N];
+     [Consult 1 "BranchCommit" (VN 3) (VZ 104) (VN 8) (VN 0)];
      [Consult 3 "BranchCommit" (VN 2) (VZ 102) (VN 9) (VN 0); Panic];
      [Panic];
      []].
